@@ -41,10 +41,11 @@ pub(crate) struct ForkScenario<'a> {
     /// the peer switches to the new branch while the client is down (C08: crash, then restart)
     pub switch_while_down: bool,
     pub filter_batch: u64,
-    /// right before the switch the user adds one more script from block 0 (set_scripts partial):
-    /// filter syncing is rewound to 0 while the other scripts keep their index, and the fork
-    /// arrives before the re-sync has passed the fork point
-    pub rewind_before_switch: bool,
+    /// right before the switch the user adds one more script from block 0 (1) or registers the
+    /// first script again with its original start number (2) (set_scripts partial): filter syncing
+    /// / the script's block number go back while the index is kept, and the fork arrives before
+    /// the re-sync has passed the fork point
+    pub rewind_before_switch: u8,
 }
 
 fn trusted_store(sim: &Sim) -> String {
@@ -61,8 +62,14 @@ fn trusted_store(sim: &Sim) -> String {
 impl<'a> ForkScenario<'a> {
     fn switch(&self, sim: &mut Sim) {
         self.switched.set(true);
-        if self.rewind_before_switch {
-            self.rewind(sim);
+        match self.rewind_before_switch {
+            1 => self.rewind(sim),
+            2 => {
+                let r = &self.regs[0];
+                explore::user_set_scripts(sim, 1, &[(r.script.clone(), r.is_lock, r.start)]);
+                sim.pump_out();
+            }
+            _ => {}
         }
         *self.before_switch.borrow_mut() = Some(trusted_store(sim));
         sim.set_view(1, 1, self.new_tip, true);
@@ -99,7 +106,9 @@ impl<'a> Scenario for ForkScenario<'a> {
         if self.explore_switch_moment && !self.switched.get() {
             // 0: the peer switches now; 1: the user rewinds filter syncing (one more script from
             // block 0) and the peer switches in the same moment
-            vec![Dev::Custom(0), Dev::Custom(1)]
+            // 2: the user registers the first script again with its original start number (the
+            // index is kept, only the script's block number goes back) and the peer switches
+            vec![Dev::Custom(0), Dev::Custom(1), Dev::Custom(2)]
         } else {
             vec![]
         }
@@ -109,6 +118,12 @@ impl<'a> Scenario for ForkScenario<'a> {
             Dev::Custom(0) => self.switch(sim),
             Dev::Custom(1) => {
                 self.rewind(sim);
+                self.switch(sim);
+            }
+            Dev::Custom(2) => {
+                let r = &self.regs[0];
+                explore::user_set_scripts(sim, 1, &[(r.script.clone(), r.is_lock, r.start)]);
+                sim.pump_out();
                 self.switch(sim);
             }
             _ => {}
@@ -153,7 +168,7 @@ pub(crate) struct Item {
     depth: u64,
     growth: u64,
     set: usize,
-    rewind: bool,
+    rewind: u8,
 }
 
 fn chains(env: &Env, item: &Item) -> (Chain, Chain, u64) {
@@ -204,11 +219,12 @@ pub(crate) fn run(opts: &Opts, report: &mut Report) {
             // probability; last-N+6 exercises the sampled path with a lower one)
             for growth in if thorough { (1..=(last_n + 2)).chain([last_n + 6]).collect::<Vec<_>>() } else { vec![1, last_n, last_n + 2, last_n + 6] } {
                 for set in if thorough { vec![0usize, 1, 2, 3] } else { vec![1usize, 3] } {
-                    items.push(Item { last_n, depth, growth, set, rewind: false });
+                    items.push(Item { last_n, depth, growth, set, rewind: 0 });
                     // the same with a set_scripts that rewinds filter syncing right before the
                     // switch after the full sync (shallow forks, one script set; thorough: all)
                     if depth <= last_n && (thorough || set == 1) {
-                        items.push(Item { last_n, depth, growth, set, rewind: true });
+                        items.push(Item { last_n, depth, growth, set, rewind: 1 });
+                        items.push(Item { last_n, depth, growth, set, rewind: 2 });
                     }
                 }
             }
@@ -226,7 +242,7 @@ pub(crate) fn run(opts: &Opts, report: &mut Report) {
             2 => vec![Reg { script: s.b.clone(), is_lock: true, start: 0 }, Reg { script: s.a.clone(), is_lock: true, start: 6 }],
             _ => vec![Reg { script: s.t.clone(), is_lock: false, start: 0 }, Reg { script: s.b.clone(), is_lock: true, start: 0 }],
         };
-        let name = format!("lastN{}/depth{}/growth{}/set{}{}", item.last_n, item.depth, item.growth, item.set, if item.rewind { "/rewind" } else { "" });
+        let name = format!("lastN{}/depth{}/growth{}/set{}{}", item.last_n, item.depth, item.growth, item.set, ["", "/rewind", "/registered-again"][item.rewind as usize]);
         let sc = ForkScenario {
             env: &env,
             name: name.clone(),
@@ -361,13 +377,13 @@ pub(crate) fn run(opts: &Opts, report: &mut Report) {
 
 pub(crate) fn debug_case() {
     let env = Env::dummy();
-    let item = Item { last_n: 2, depth: 1, growth: 4, set: 0, rewind: false };
+    let item = Item { last_n: 2, depth: 1, growth: 4, set: 0, rewind: 0 };
     let (old, new, new_tip) = chains(&env, &item);
     let s = &env.scripts;
     let regs = vec![Reg { script: s.a.clone(), is_lock: true, start: 0 }];
     let sc = ForkScenario {
         env: &env, name: "dbg".into(), old, new, regs, cfg: ClientCfg { last_n: 2, cp_interval: 4, ..Default::default() },
-        new_tip, switched: Cell::new(false), before_switch: RefCell::new(None), explore_switch_moment: true, switch_while_down: false, filter_batch: 6, rewind_before_switch: false,
+        new_tip, switched: Cell::new(false), before_switch: RefCell::new(None), explore_switch_moment: true, switch_while_down: false, filter_batch: 6, rewind_before_switch: 0,
     };
     let mut sim = sc.init(None);
     sim.record_trace = true;
@@ -389,7 +405,7 @@ pub(crate) fn debug_case() {
 
 /// The fork scenario for other checks (C08): full sync of the old branch, then the switch.
 pub(crate) fn scenario<'a>(env: &'a Env, last_n: u64, depth: u64, growth: u64, set: usize) -> (ForkScenario<'a>, Vec<Reg>) {
-    let item = Item { last_n, depth, growth, set, rewind: false };
+    let item = Item { last_n, depth, growth, set, rewind: 0 };
     let (old, new, new_tip) = chains(env, &item);
     let s = &env.scripts;
     let regs: Vec<Reg> = match set {
@@ -409,7 +425,7 @@ pub(crate) fn scenario<'a>(env: &'a Env, last_n: u64, depth: u64, growth: u64, s
             switched: Cell::new(false),
             before_switch: RefCell::new(None),
             explore_switch_moment: false,
-            switch_while_down: false, filter_batch: 6, rewind_before_switch: false,
+            switch_while_down: false, filter_batch: 6, rewind_before_switch: 0,
         },
         regs,
     )
